@@ -681,7 +681,15 @@ L2Checks(ln, w, regsAfter) ==
                Chk("DRIFT", "l2-entity-index", post.eidx = exp.eidx /\ post.tflag = exp.tflag),
                Chk("DRIFT", "l2-tables-rows-freelists", ProjTables(post) = ProjTables(exp)),
                Chk("DRIFT", "l2-filter-cache", ProjCache(post) = ProjCache(exp) /\ post.fidNext = exp.fidNext),
-               Chk("DRIFT", "l2-structural-invariants", StructInv(post) /\ CacheInv(post)) >>
+               Chk("DRIFT", "l2-structural-invariants", StructInv(post) /\ CacheInv(post)),
+               (* iteration orders: the All() query, and every registered filter next to its original *)
+               Chk("DRIFT", "l2-query-iteration-order",
+                   /\ ln.obs.all = LQueryOrder(post, [k |-> "all", ids |-> <<>>, exc |-> <<>>, tgt |-> Zero, reg |-> -1, subs |-> <<>>], -1)
+                   /\ ("sweep" \in DOMAIN ln =>
+                         \A i \in DOMAIN ln.sweep :
+                             OpenRelCase(w, ln.sweep[i].f) \/
+                             ( /\ ln.sweep[i].cached = LQueryOrder(post, ln.sweep[i].f, ln.sweep[i].reg)
+                               /\ ln.sweep[i].orig = LQueryOrder(post, ln.sweep[i].f, -1) ))) >>
 
 EmptyCfg == [comps |-> {}, rels |-> {}, sized |-> {}, nres |-> 0, totalBits |-> 256, capInc |-> 1, relCapInc |-> 0,
              lst |-> [on |-> FALSE, S |-> 0, C |-> {}, hasC |-> FALSE], isDispatch |-> FALSE, subs |-> <<>>]
